@@ -135,8 +135,10 @@ func (r *PKIndexReaderImpl) createFieldRefFunc(
 ) (createFieldRef func(int, int, *FieldRef)) {
 	doCreateFieldRef := func(row int, column int, field *FieldRef, cols []*ColumnRef) {
 		field.Set(cols, column, row)
+		// null keys are sorted before every value when the data is written (see record.SortData),
+		// so a null mark is the lowest possible bound, not the highest.
 		if field.IsNull() {
-			field.SetPositiveInfinity()
+			field.SetNegativeInfinity()
 		}
 	}
 
